@@ -111,3 +111,30 @@ Theorem C09_kc_binary64_ordered : forall p mu k xs M, kc_new FOps p mu = Ok k ->
   Forall (fun o => exists a up lo, o = [a; up; lo] /\ finF a /\ finF up /\ finF lo /\ (FR lo <= FR a <= FR up)%R)
          (Wiring.kc_outs FOps k xs).
 Proof. exact kc_float_ordered. Qed.
+(* the bar paths on binary64 (bars with finite prices of magnitude at most M, low <= high), streams of ANY length, periods < 2^45:
+   ATR is finite and >= 0; KeltnerChannel bands are finite with lower <= average <= upper; ChandelierExit's long stop never exceeds
+   the greatest high of the window and its short stop is never below the least low — all exactly, no slack *)
+From TA Require Import Proofs.MinMaxProofs Proofs.FloatOrder Proofs.FloatBars.
+Theorem C09_atr_bar_binary64_nonneg : forall p a bars M, atr_new FOps p = Ok a -> (p < 35184372088832)%N ->
+  (1 <= M)%R -> (8 * M <= bpow radix2 990)%R -> Forall (okbar M) bars ->
+  length (Wiring.atr_bar_outs FOps a bars) = length bars /\
+  Forall (fun o => finF o /\ (0 <= FR o <= 6 * M)%R) (Wiring.atr_bar_outs FOps a bars).
+Proof. exact atr_bar_float_nonneg. Qed.
+Theorem C09_okbar_def : forall M b, okbar M b <->
+  (okin M (b_high b) /\ okin M (b_low b) /\ okin M (b_close b) /\ (FR (b_low b) <= FR (b_high b))%R).
+Proof. intros. reflexivity. Qed.
+Theorem C09_kc_bar_binary64_ordered : forall p mu k bars M, kc_new FOps p mu = Ok k -> (p < 35184372088832)%N ->
+  finF mu -> (0 <= FR mu <= bpow radix2 400)%R -> (1 <= M)%R -> (M <= bpow radix2 400)%R -> Forall (okbar M) bars ->
+  length (Wiring.kc_bar_outs FOps k bars) = length bars /\
+  Forall (fun o => exists a up lo, o = [a; up; lo] /\ finF a /\ finF up /\ finF lo /\ (FR lo <= FR a <= FR up)%R)
+         (Wiring.kc_bar_outs FOps k bars).
+Proof. exact kc_bar_float_ordered. Qed.
+Theorem C09_ce_binary64_bounds : forall p mu c bars M, ce_new FOps p mu = Ok c -> (p < 35184372088832)%N ->
+  finF mu -> (0 <= FR mu <= bpow radix2 400)%R -> (1 <= M)%R -> (M <= bpow radix2 400)%R -> Forall (okbar M) bars ->
+  Forall okF (map b_high bars) -> Forall okF (map b_low bars) ->
+  let highs := map b_high bars in let lows := map b_low bars in
+  forall k, (k < length bars)%nat ->
+    exists lg sh mx mn, nth k (Wiring.ce_outs FOps c bars) [] = [lg; sh] /\ finF lg /\ finF sh /\
+      greatest_in FOps (Ring.lastn (N.to_nat p) (firstn (S k) highs)) mx /\ least_in FOps (Ring.lastn (N.to_nat p) (firstn (S k) lows)) mn /\
+      (FR lg <= FR mx)%R /\ (FR mn <= FR sh)%R.
+Proof. exact ce_float_bounds. Qed.
